@@ -71,6 +71,20 @@ def check_split(case, out):
     if lib.snapshot(curve) != snap:
         out.fail("operand-modified", kind, "split changed the curve")
     cuts = sorted(set([bk[0], bk[-1]] + nodes))
+    # aliasing: a fresh set of pieces is mutated in place; the original must not notice
+    try:
+        for pc in (curve.split() if case["mode"] == "none" else curve.split(list(lnodes))):
+            if pc is curve:
+                out.fail("result-aliases-operand", kind, "split returned the operand itself")
+            for pt in pc.ctrlpoints:
+                if hasattr(pt, "__iadd__") and hasattr(pt, "shape"):
+                    pt += 1
+            pc.knotvector.shift(1)
+    except Exception as exc:
+        if not lib.from_library(exc):
+            raise
+    if lib.snapshot(curve) != snap:
+        out.fail("result-shares-state-with-operand", kind, "mutating the pieces of a split changed the curve")
     at_knot = any(z in bk[1:-1] for z in nodes)
     if at_knot:
         out.cls("cut-at-existing-knot")
